@@ -22,7 +22,7 @@
 (*            (in-segment words that are not in DOMAIN read 0)             *)
 (*   m.ip     bit address of the current op            (AW-byte number)     *)
 (*   m.inp    remaining input bits,   m.out  emitted output bits           *)
-(*   m.ops    retired ops                                                  *)
+(*   m.ops    retired ops;  m.flips / m.jumps  the profile counters        *)
 (*   m.status "run" | "looping" | "eof" | "nullip" | "memerr"              *)
 (*   m.fault  bit address reported with "memerr" (else <<>>)               *)
 (*   m.hist   addresses of all ops begun, oldest first                     *)
@@ -108,8 +108,15 @@ FetchJump(m) ==
     IN IF r.ok THEN [m EXCEPT !.j = Ext(r.v, AW), !.phase = "retire"]
        ELSE Fault(m, r.wa)
 
+\* the profile counters of the featured loop: ops whose flip address is not in the first op ("null flips" excluded)
+\* and ops that do not fall through to the next op
+CountsFlip(m) == ~(IsBelowPow2(m.f, 8) /\ BVal(m.f) < 2 * m.w)
+CountsJump(m) == m.j # AddPow2(m.ip, Log2(m.w) + 1)
+
 Retire(m) ==
-    LET m1 == [m EXCEPT !.ops = @ + 1]
+    LET m1 == [m EXCEPT !.ops = @ + 1,
+                        !.flips = @ + (IF CountsFlip(m) THEN 1 ELSE 0),
+                        !.jumps = @ + (IF CountsJump(m) THEN 1 ELSE 0)]
     IN IF m.j = m.ip /\ ~FlipsOwnOp(m) THEN [m1 EXCEPT !.status = "looping"]
        ELSE IF IsBelowPow2(m.j, 8) /\ BVal(m.j) < 2 * m.w THEN [m1 EXCEPT !.status = "nullip"]
        ELSE [m1 EXCEPT !.ip = m.j, !.phase = "fetch"]
@@ -134,7 +141,7 @@ RunOp(m) ==
 (* address -> word for the explicitly stored words.                        *)
 MkMachine(w, segs, data, input) ==
     [ w |-> w, segs |-> segs, mem |-> data, ip |-> A(0), inp |-> input, out |-> <<>>,
-      ops |-> 0, status |-> "run", fault |-> <<>>, hist |-> <<>>,
+      ops |-> 0, flips |-> 0, jumps |-> 0, status |-> "run", fault |-> <<>>, hist |-> <<>>,
       phase |-> "fetch", f |-> A(0), j |-> A(0) ]
 
 \* did the run execute an op that reaches beyond bit address 2^w (ip + 2w > 2^w)?  (classification of KF-1)
